@@ -222,6 +222,11 @@ func stdlibRejectsByDesign(t *tnode, class string) bool {
 		return has(func(o *opt) bool { return o.explicit && o.class == 3 })
 	case "asn1: structure error: explicit tag has no child":
 		return has(func(o *opt) bool { return o.explicit && o.optional })
+	case "optional explicit private read as absent":
+		// the same upstream defect as the first class, on an OPTIONAL component: the standard library
+		// expects class CONTEXT for every EXPLICIT tag that is not APPLICATION, takes the PRIVATE
+		// element for "not my tag" and reads the component as absent instead of rejecting
+		return has(func(o *opt) bool { return o.explicit && o.class == 3 && o.optional })
 	}
 	return false
 }
@@ -253,7 +258,7 @@ func crossCheck(t *tnode, vn *vnode, b []byte, want string, inD, witness bool) (
 		}
 	case canon(out.Elem(), false) != want:
 		notes = append(notes, "stdlib decodes zcrypto's bytes to a different value")
-		if inD {
+		if inD && !stdlibRejectsByDesign(t, "optional explicit private read as absent") {
 			viol = "stdlib decodes the bytes to a different value"
 		}
 	default:
